@@ -69,3 +69,8 @@ def heartbeat_gives_up_after_four_failures():
         assert gave_up
     else:
         assert reqs[-1] == FAIL and len(reqs) == 4 and gave_up
+
+
+ASSUMPTIONS = [
+    "asyncio is trusted behind the contract stubs: a cancelled task/future does not continue, asyncio.timeout cancels what it guards, locks are mutually exclusive, queues are FIFO, tasks switch only at awaits; interleavings inside one await are represented by 'the awaited object completes with any admissible value, times out, or the connection closes'",
+]
